@@ -1,8 +1,11 @@
 package e1
 
 import (
+	"bytes"
 	"fmt"
 	"os"
+	"os/exec"
+	"strings"
 	"syscall"
 	"time"
 
@@ -17,7 +20,106 @@ func Run(in sx.Tree) sx.Tree {
 	if in.Len() == 2 && !in.At(0).IsLeaf && in.At(0).Len() > 0 && in.At(0).At(0).IsLeaf && in.At(0).At(0).Int() == 1 {
 		return runLock(in.At(0), in.At(1))
 	}
+	if in.Len() >= 4 && in.At(0).IsLeaf && in.At(0).Int() == 2 {
+		return runSetupFail(in)
+	}
 	return runFree(in)
+}
+
+// runSetupFail: a scripted source whose Setup fails in some incarnation.  The unchanged executor ends the whole process
+// then (os.Exit(1) in prepareSource), so the case runs in a child process (this binary, FB_E1_CHILD=1) that writes the
+// trace event by event; the parent collects what was written and how the child ended.
+func runSetupFail(in sx.Tree) sx.Tree {
+	if os.Getenv("FB_E1_CHILD") == "" {
+		exe, err := os.Executable()
+		if err != nil {
+			return sx.T(sx.L(-2))
+		}
+		cmd := exec.Command(exe, "e1", "run")
+		cmd.Env = append(os.Environ(), "FB_E1_CHILD=1")
+		cmd.Stdin = strings.NewReader(in.String() + "\n")
+		var out bytes.Buffer
+		cmd.Stdout = &out
+		done := make(chan error, 1)
+		if err := cmd.Start(); err != nil {
+			return sx.T(sx.L(-2))
+		}
+		go func() { done <- cmd.Wait() }()
+		limit := 8 * time.Second
+		for _, ph := range in.At(3).Kids[1:] {
+			if !ph.At(1).Bool() || (ph.Len() >= 3 && ph.At(2).Bool()) {
+				limit += 11 * time.Second
+			}
+		}
+		exit := int64(0)
+		select {
+		case err := <-done:
+			if ee, ok := err.(*exec.ExitError); ok {
+				exit = int64(ee.ExitCode())
+			} else if err != nil {
+				exit = -1
+			}
+		case <-time.After(limit):
+			_ = cmd.Process.Kill()
+			<-done
+			exit = -9
+		}
+		netd := sx.T()
+		tr := []sx.Tree{}
+		for _, line := range strings.Split(out.String(), "\n") {
+			switch {
+			case strings.HasPrefix(line, "N "):
+				if t, err := sx.Parse(line[2:]); err == nil {
+					netd = t
+				}
+			case strings.HasPrefix(line, "T "):
+				if t, err := sx.Parse(line[2:]); err == nil {
+					tr = append(tr, t)
+				}
+			}
+		}
+		return sx.T(netd, sx.T(tr...), sx.L(exit))
+	}
+	// child
+	timeout := int(in.At(1).Int())
+	cfgs := decCfgs(in.At(2))
+	par := in.At(3)
+	r := newRT(false, uint64(par.At(0).Int()))
+	r.sink = true
+	for _, ph := range par.Kids[1:] {
+		r.script = append(r.script, srcPhase{count: int(ph.At(0).Int()), ok: ph.At(1).Bool(), setupFail: ph.Len() >= 3 && ph.At(2).Bool()})
+	}
+	ex, roots, err := r.build(cfgs, timeout)
+	if err != nil {
+		return sx.T(sx.L(-2))
+	}
+	rootIDs := map[string]bool{}
+	for _, rc := range roots {
+		if !rc.Disabled {
+			rootIDs[rc.ID] = true
+		}
+	}
+	tab := table(ex, roots)
+	r.mu.Lock()
+	_, _ = os.Stdout.WriteString("N " + r.netDump(tab, rootIDs).String() + "\n")
+	r.mu.Unlock()
+	done := make(chan struct{})
+	go func() {
+		ex.Execute()
+		close(done)
+	}()
+	limit := time.Duration(timeout)*time.Second + 3*time.Second
+	for _, ph := range r.script {
+		if !ph.ok || ph.setupFail {
+			limit += 11 * time.Second
+		}
+	}
+	select {
+	case <-done:
+		r.log(sx.T(sx.L(10), sx.B(r.allShutEnded(tab))))
+	case <-time.After(limit):
+	}
+	return sx.T()
 }
 
 func decCfgs(t sx.Tree) []*nodeCfg {
